@@ -161,5 +161,7 @@ Definition prune_values : option (Q * Q) :=
   | None => None
   end.
 
-Theorem union2_prune_refuted : prune_values = Some (23 # 2, 19 # 2)%Q.
+(* With the pinned pruning (interval overlap) these two values were 23/2 and 19/2: a jump of 2 over a
+   distance of 1/2.  The repaired pruning returns the exhaustive minimum: 10 and 19/2. *)
+Theorem union2_prune_witness_repaired : prune_values = Some (10, 19 # 2)%Q.
 Proof. vm_compute. reflexivity. Qed.
